@@ -89,7 +89,7 @@ Section WithLib.
     if fb_incl lo then x
     else if f_le is64 x (fb_val lo) then f_add is64 x (correction_delta is64) else x.
   Definition adjust_upper (is64 : bool) (hi : fbound) (x : Z) : Z :=
-    if fb_incl hi then x
+    if fb_incl hi then (if f_gt is64 x (fb_val hi) then fb_val hi else x)   (* clamp: rounding of the range *)
     else if f_ge is64 x (fb_val hi) then f_sub is64 x (correction_delta is64) else x.
 
   Definition base_kind_of (vs : list validator) : base_kind :=
